@@ -1387,7 +1387,12 @@ func (mgr *Manager) UpdateTag(name string, operation UpdateTagOperation) error {
 				tag = &newTag
 				mgr.tags[name] = tag
 				mgr.inheritTagUncertainty()
-				mgr.tags[name].Uncertain = bitmask.LongBitmask{}
+				if !mgr.taggingJobRunning {
+					mgr.tags[name].Uncertain = bitmask.LongBitmask{}
+				}
+				// else: the result of the running tagging job replaces the pending
+				// streams of its tag; if that tag references this one it has to
+				// inherit them again afterwards, so they stay pending here as well
 				mgr.startTaggingJobIfNeeded()
 				mgr.startConverterJobIfNeeded()
 			}
